@@ -425,6 +425,39 @@ func e1Regress(t *testing.T, prop string, st *vStats) {
 	}
 }
 
+// Coverage-guided variant (thorough tier only): the same property, its draws decoded from the fuzzer's bytes
+// by rapid.MakeFuzz. A failing worker writes the concrete case through vReport exactly as the rapid run does
+// (that JSON, not the fuzzer's byte string, is the replay unit); Go's fuzzer minimises, saves its input under
+// ./testdata/fuzz (the shard directory) and exits non-zero.
+func e1Fuzz(f *testing.F, prop string) {
+	st := newStats(prop + "-fuzzworker")
+	// Starting corpus: rapid decodes the input as a stream of 64-bit words, one per draw, so any long enough
+	// byte string is a valid program; an empty corpus leaves the fuzzer stuck in inputs that end after a
+	// few draws. 48 fixed pseudo-random strings of 1-4 KiB (xorshift, constants only - no clock, no RNG state).
+	x := uint64(0x9E3779B97F4A7C15)
+	for i := 0; i < 48; i++ {
+		b := make([]byte, 1024*(1+i%4))
+		for j := 0; j+8 <= len(b); j += 8 {
+			x ^= x << 13
+			x ^= x >> 7
+			x ^= x << 17
+			v := x
+			if j%16 == 8 {
+				v >>= uint(x % 61) // small values too: rapid maps small words to the first alternatives
+			}
+			for k := 0; k < 8; k++ {
+				b[j+k] = byte(v >> (8 * uint(k)))
+			}
+		}
+		f.Add(b)
+	}
+	f.Fuzz(rapid.MakeFuzz(e1Property(prop, st)))
+}
+
+func FuzzVerifC01(f *testing.F) { e1Fuzz(f, "C01") }
+func FuzzVerifC02(f *testing.F) { e1Fuzz(f, "C02") }
+func FuzzVerifC03(f *testing.F) { e1Fuzz(f, "C03") }
+
 func TestVerifC01(t *testing.T) { e1Test(t, "C01") }
 func TestVerifC02(t *testing.T) { e1Test(t, "C02") }
 func TestVerifC03(t *testing.T) { e1Test(t, "C03") }
